@@ -399,12 +399,168 @@ def rule_own_value(run):
     run.end()
 
 
+def rule_copy(run):
+    run.begin(
+        "C05.copy",
+        "BitVector.copy() is a DEEP copy: the constructor adopts a span of bits as the new object's storage, so the span "
+        "handed to it consists of new Bit objects (bit.copy()) in the same order - a shallow copy would make the literal "
+        "built for one assignment change with every later write to its source (abstract evaluation of BitVector.copy and "
+        "of the Span methods it uses, read from cohdl/utility/span.py)",
+        floor=3,
+    )
+    from ..absint import Interp, Reject
+
+    bvm = run.idx.mod("cohdl/_core/_bit_vector.py")
+    spm = run.idx.mod("cohdl/utility/span.py")
+    f = bvm.func("BitVector.copy")
+
+    class _BitM:
+        def __init__(self, state, origin=None):
+            self.state, self.origin = state, origin
+
+        def copy(self):
+            return _BitM(self.state, self)
+
+    class _SpanM:
+        def __getattr__(self, name):
+            if name.startswith("__") or not spm.has_func(f"Span.{name}"):
+                raise AttributeError(name)
+            return lambda *a, **k: _interp().call_function(f"Span.{name}", self, *a, **k)
+
+        def __iter__(self):
+            return iter(self._data)
+
+        def __len__(self):
+            return len(self._data)
+
+    class _SpanCls:
+        def __call__(self, content):
+            o = _SpanM()
+            _interp().call_function("Span.__init__", o, content)
+            return o
+
+        def __getattr__(self, name):
+            if name.startswith("__") or not spm.has_func(f"Span.{name}"):
+                raise AttributeError(name)
+            return lambda *a, **k: _interp().call_function(f"Span.{name}", *a, **k)
+
+    span_cls = _SpanCls()
+
+    def _interp():
+        return Interp(spm, {"Span": span_cls, "isinstance": lambda v, t: isinstance(v, t) if isinstance(t, (type, tuple)) else False, "len": len, "zip": zip, "slice": slice, "int": int,
+                            "__setattr__": lambda o, k, v: setattr(o, k, v)})
+
+    class _Me:
+        pass
+
+    for w in (1, 3, 8):
+        bits = [_BitM("01"[i % 2]) for i in range(w)]
+        me = _Me()
+        me._value = _SpanM()
+        me._value.__dict__["_data"] = list(bits)
+        got = {}
+        prims = {"type": lambda o: (lambda v=None: got.__setitem__("arg", v)), "Span": span_cls, "isinstance": lambda v, t: isinstance(v, t) if isinstance(t, (type, tuple)) else False}
+        try:
+            Interp(bvm, prims).call_function("BitVector.copy", me)
+            arg = got.get("arg")
+            if not isinstance(arg, _SpanM):
+                res, ok = f"constructor argument {type(arg).__name__}", False
+            else:
+                data = arg._data
+                shared = [i for i, b in enumerate(data) if any(b is o for o in bits)]
+                same = len(data) == w and all(isinstance(b, _BitM) and b.state == o.state for b, o in zip(data, bits))
+                ok = same and not shared
+                res = "new bits, same states" if ok else (f"bits {shared} are the source's own Bit objects (shallow copy)" if shared else "states / order differ")
+        except Reject as e:
+            res, ok = f"rejected: {e}", False
+        run.ob(ok, "BitVector.copy", file=bvm.rel, line=f.node.lineno, detail=f"width={w}", expected="a span of new Bit objects with the same states", found=res, sample=w == 3)
+    run.end()
+
+
+def rule_view_cast(run):
+    run.begin(
+        "C05.viewcast",
+        "a whole-object view (.unsigned/.signed/.bitvector of an object without slicing) is emitted as a conversion of "
+        "the root's VHDL name whose RESULT type is the view's kind: signed(..) for a Signed view, unsigned(..) for an "
+        "Unsigned view, std_logic_vector(..) for a BitVector view; the root's own kind is returned unconverted "
+        "(abstract evaluation of format_vhdl_cast over root kind x view kind, Array roots included)",
+        floor=9,
+    )
+    import re
+    from ..absint import Interp, Reject
+
+    class _BV:
+        width = 8
+
+    class _U(_BV):
+        pass
+
+    class _S(_BV):
+        pass
+
+    class _Arr:
+        def __init__(self, et):
+            self.et = et
+
+    class _TQ:
+        pass
+
+    class _BVSub:
+        def __getitem__(self, w):
+            return _BV
+
+    vh = run.idx.mod("cohdl/_compiler/backend/vhdl/_vhdl_repr.py")
+    f = vh.func("VhdlScope.format_vhdl_cast")
+    kinds = {"BitVector": _BV, "Unsigned": _U, "Signed": _S}
+    outer = {"signed": "Signed", "unsigned": "Unsigned", "std_logic_vector": "BitVector"}
+
+    class _ArrT(type):
+        pass
+
+    for rname, R in kinds.items():
+        for vname, V in kinds.items():
+            for arr in (False, True):
+                val = _TQ()
+                val.type = V
+                root = _TQ()
+                if arr:
+                    class _ArrType(_Arr):
+                        @staticmethod
+                        def elemtype(R=R):
+                            return R
+                    root.type = _ArrType
+                else:
+                    root.type = R
+                val._root = root
+                prims = {"isinstance": lambda v, t: isinstance(v, t) if isinstance(t, (type, tuple)) else False,
+                         "issubclass": lambda c, b: isinstance(c, type) and isinstance(b, type) and issubclass(c, b),
+                         "TypeQualifier": _TQ, "BitVector": _BV, "Unsigned": _U, "Signed": _S, "Array": _Arr}
+                # BitVector[...] : the class object must be subscriptable in the model
+                try:
+                    got = Interp(vh, prims).call_function("VhdlScope.format_vhdl_cast", None, val, "x")
+                except Reject as e:
+                    got = f"rejected: {e}"
+                if R is V:
+                    ok, exp = got == "x", "x (no conversion)"
+                else:
+                    mm = re.match(r"^(\w+)\((.*)\)$", got or "") if isinstance(got, str) else None
+                    ok = bool(mm) and outer.get(mm.group(1)) == vname and got.count("x") == 1 and re.sub(r"\w+\(|\)", "", got) == "x"
+                    exp = f"{[k for k, v in outer.items() if v == vname][0]}(... x ...)"
+                run.ob(ok, "VhdlScope.format_vhdl_cast", file=vh.rel, line=f.node.lineno, detail=f"root={rname}{'[]' if arr else ''},view={vname}", expected=exp, found=str(got), sample=(rname, vname, arr) == ("Signed", "Unsigned", False))
+    run.end()
+
+
+def rule_views(run):
+    from ..rules import views
+    views.run_kind_rule(run, "F-VIEW.kind")   # u.signed / s.unsigned reinterpret, they never return the object unconverted
+
+
 def rule_alias(run):
     from ..rules import snapshot
     snapshot.run_alias_rule(run, "F-ALIAS")
 
 
-RULES = [rule_front, rule_back, rule_trial, rule_join, rule_literals, rule_shadow, rule_backend_sites, rule_bit_literals, rule_select_default, rule_own_value, rule_alias]
+RULES = [rule_front, rule_back, rule_trial, rule_join, rule_literals, rule_shadow, rule_backend_sites, rule_bit_literals, rule_select_default, rule_own_value, rule_copy, rule_view_cast, rule_views, rule_alias]
 LEVEL = "other"
 EXPLANATION = (
     "Conversion matrices decided statically for all widths and values: (front end) the accept/reject decision and "
